@@ -25,22 +25,27 @@ EXTENDS AELexer, AEHTMLTok, AETables, TLC, Json
 
 CONSTANTS Use,        \* set of fragment indices
           MaxDoc,     \* safety bound on the document length (the fix-point must be reached below it)
+          Fmt,        \* file format: "HTML", "JS", "CSS" or "JSON"
           MaxDiv      \* how many fragments exploration continues after the FIRST loss of strict agreement (0: no bound)
 
-VARIABLES lex, ref, doc, broken, edge, root, div, succ
-vars == <<lex, ref, doc, broken, edge, root, div, succ>>
+VARIABLES lex, ref, doc, broken, edge, root, div
+vars == <<lex, ref, doc, broken, edge, root, div>>
 
 Class(l, h) == <<LCtxAtHole(l), LURLAtHole(l), Slot(h), SlotKind(h)>>
 CompatibleAt(l, h) == Compatible(LCtxAtHole(l), LURLAtHole(l), Slot(h), SlotKind(h))
 AgreeAt(l, h) == Agree(LCtxAtHole(l), LURLAtHole(l), Slot(h), SlotKind(h))
 Sync == ~broken
 
-\* for a state of the synchronised region: the context AELexer predicts after every fragment (one test per
-\* transition: checks/c06.py compares it with the context the real lexer assigns, to report model drift
-\* and to explore what follows a drifted transition)
-Succ(l) == [f \in 1..Len(Frags) |-> IF f \in Use THEN LET l2 == LRun(l, Frags[f]) IN <<LCtxAtHole(l2), LURLAtHole(l2)>> ELSE <<>>]
+\* For every state of the synchronised region: the context AELexer predicts after every fragment (one test
+\* per transition: checks/c06.py compares it with the context the real lexer assigns, to report model
+\* drift and to explore what follows a drifted transition).  Printed from an "invariant" because TLC
+\* evaluates invariants once per distinct state; a prediction is 10 * context number + URL kind, -1 = unused.
+LCtxNum(c) == CASE c = "HTML" -> 1 [] c = "CSS" -> 2 [] c = "JS" -> 3 [] c = "JSON" -> 4 [] c = "Tag" -> 6 [] c = "QuotedAttr" -> 7
+                [] c = "UnquotedAttr" -> 8 [] c = "CSSString" -> 9 [] c = "JSString" -> 10 [] c = "JSONString" -> 11 [] OTHER -> 99   \* "inert"
+Succ(l) == [f \in 1..Len(Frags) |-> IF f \in Use THEN LET l2 == LRun(l, Frags[f]) IN 10 * LCtxNum(LCtxAtHole(l2)) + LURLAtHole(l2) ELSE -1]
+PrintSucc == (div = 0 /\ ~broken) => PrintT(<<"SUCC", doc, Succ(lex)>>)
 
-Init == lex = L0 /\ ref = HNorm(H0) /\ doc = <<>> /\ broken = FALSE /\ edge = <<>> /\ root = <<>> /\ div = 0 /\ succ = Succ(L0)
+Init == lex = L0F(Fmt) /\ ref = HNorm(HInit(Fmt)) /\ doc = <<>> /\ broken = FALSE /\ edge = <<>> /\ root = <<>> /\ div = 0
 
 Step(f) ==
   LET l2 == LRun(lex, Frags[f])
@@ -52,7 +57,6 @@ Step(f) ==
      /\ broken' = (~ok /\ ~AgreeAt(l2, h2))
      /\ edge' = IF ok \/ AgreeAt(l2, h2) THEN <<>> ELSE Class(lex, ref) \o <<f>>
      /\ root' = IF root # <<>> THEN root ELSE IF AgreeAt(l2, h2) THEN <<>> ELSE Class(lex, ref) \o <<f>>
-     /\ succ' = IF div = 0 /\ AgreeAt(l2, h2) THEN Succ(l2) ELSE <<>>
      /\ div' = IF div > 0 THEN (IF MaxDiv = 0 THEN 1 ELSE div + 1) ELSE IF AgreeAt(l2, h2) THEN 0 ELSE 1
 
 Next == ~broken /\ (MaxDiv = 0 \/ div < MaxDiv) /\ Len(doc) < MaxDoc /\ Slot(ref) # "undefined" /\ \E f \in Use : Step(f)
